@@ -3,7 +3,7 @@
 # any VIOLATION / infrastructure lines
 tier=${1:-quick}; shift
 seeds=${@:-0}
-cd /verif
+cd "$(dirname "$0")/.."
 one() {
   p=$1; s=$2; tier=$3; log=$(mktemp /tmp/runall.XXXXXX)
   VERIF_SEED=$s ./check $p $tier > $log 2>&1; rc=$?
